@@ -330,7 +330,7 @@ func checkGaugeKey(c *Ctx, r *Report) {
 				return
 			}
 			ci := describeCall(cc)
-			if !strings.Contains(ci.Pkg, "xsync") || (ci.Name != "LoadOrCompute" && ci.Name != "LoadOrStore") {
+			if !strings.Contains(ci.Pkg, "xsync") || (ci.Name != "LoadOrCompute" && ci.Name != "LoadOrStore" && ci.Name != "Store") {
 				return
 			}
 			if !mentionsField(cc.Args[0], "internal/adapter/stats", "Collector", "endpoints", 3) {
